@@ -44,6 +44,10 @@ class SimStorage:
     def __len__(self):
         return self.shape[0]
 
+    def __repr__(self):
+        # stable across a pickle round trip (fault F10) so that two executions of a task that returns the store compare equal
+        return f"SimStorage({self.name}, shape={self.shape}, dtype={self.dtype})"
+
 
 def _idx_repr(idx):
     if not isinstance(idx, tuple):
